@@ -276,7 +276,7 @@ def impl(case):
     if k == "dedup":
         return [_impl_dedup(case), True, True]
     if k == "prune":
-        return [_impl_prune(case), True]
+        return [_impl_prune(case), True, True]     # + every match is defined on nodes of the rule centre
     raise AssertionError(k)
 
 
